@@ -2,10 +2,6 @@ import Sylvia.Lemmas.Serde
 /-! Round trip of the derive decoder on encodings of well-formed messages. -/
 namespace Sylvia.Serde
 
-/-- the member list of an encoded struct body: declared field names paired with canonical values -/
-def pairUp (fs : List FieldSpec) (cs : List Json) : List (String × Json) :=
-  (fs.zip cs).map fun p => (p.1.name, p.2)
-
 theorem pairUp_cons (f : FieldSpec) (fs : List FieldSpec) (c : Json) (cs : List Json) :
     pairUp (f :: fs) (c :: cs) = (f.name, c) :: pairUp fs cs := rfl
 
